@@ -74,6 +74,46 @@ class Cfg:
         self._dom = dom
         return dom
 
+    def post_dominators(self):
+        """pdom[b] = blocks post-dominating b (including b), w.r.t. the exit block"""
+        if getattr(self, '_pdom', None) is not None:
+            return self._pdom
+        nodes = list(self.reachable())
+        allb = set(nodes)
+        pdom = {b: set(allb) for b in nodes}
+        pdom[self.exit] = {self.exit}
+        changed = True
+        while changed:
+            changed = False
+            for b in nodes:
+                if b == self.exit:
+                    continue
+                ss = [s for s in self.real_succ(b) if s in pdom]
+                if not ss:
+                    new = {b}
+                else:
+                    new = set.intersection(*(pdom[s] for s in ss)) | {b}
+                if new != pdom[b]:
+                    pdom[b] = new
+                    changed = True
+        self._pdom = pdom
+        return pdom
+
+    def control_deps(self, bid):
+        """[(branch block d, successor index k)]: bid is control dependent on the edge d -> succ[k]"""
+        pdom = self.post_dominators()
+        out = []
+        for d in self.reachable():
+            ss = self.succ.get(d, [])
+            if len([s for s in ss if s is not None and s >= 0]) < 2:
+                continue
+            for k, s in enumerate(ss):
+                if s is None or s < 0 or s not in pdom:
+                    continue
+                if bid in pdom[s] and bid not in (pdom[d] - {d}):
+                    out.append((d, k))
+        return out
+
     def back_edges(self):
         dom = self.dominators()
         out = []
